@@ -234,6 +234,14 @@ func runC11(c *eng.Ctx) {
 	c.Rule("R08.6", "K2")
 	ruleReverseReaderSurvivesReplacement(c)
 
+	// ---- from the repaired defects F63, F64 and known finding K13
+	c.Rule("R04.2", "K1")
+	ruleOffsetProgressSignalsCommit(c)
+	c.Rule("R08.1", "K1")
+	ruleCompactionScansEndOnlyAtEOF(c)
+	c.Rule("R11.7", "K5")
+	ruleCursorKeyInjective(c)
+
 }
 
 func shortRef(r string) string {
